@@ -123,6 +123,7 @@ type Lemma struct {
 	Split    *SplitSpec
 	Tags     []string
 	Reveals  []string
+	Triggers [][]SExpr // instantiation patterns for `uses`
 	Spec     *SpecFile
 	File     string
 	Line     int
@@ -491,6 +492,20 @@ func (cs *Contracts) LoadFile(path, pkgPath string, fromRepo bool) error {
 				}
 				cur.Preserves = append(cur.Preserves, e)
 			}
+		case "trigger":
+			// trigger e1, e2, ... : instantiation pattern of a lemma when it is used (one multi-pattern)
+			if curLemma == nil {
+				return errf("trigger outside lemma")
+			}
+			var pat []SExpr
+			for _, part := range splitTopLevelCommas(rest) {
+				ex, err := parseSpecExpr(strings.TrimSpace(part))
+				if err != nil {
+					return errf("trigger: " + err.Error())
+				}
+				pat = append(pat, ex)
+			}
+			curLemma.Triggers = append(curLemma.Triggers, pat)
 		case "reveal":
 			var names []string
 			for _, n := range strings.Split(rest, ",") {
@@ -844,4 +859,24 @@ func (cs *Contracts) parsePureFunc(sf *SpecFile, text, path string, line int) er
 	}
 	cs.SpecFuncs[name] = s
 	return nil
+}
+
+// splitTopLevelCommas splits at commas that are not inside parentheses or brackets.
+func splitTopLevelCommas(s string) []string {
+	var out []string
+	depth, start := 0, 0
+	for i, ch := range s {
+		switch ch {
+		case '(', '[':
+			depth++
+		case ')', ']':
+			depth--
+		case ',':
+			if depth == 0 {
+				out = append(out, s[start:i])
+				start = i + 1
+			}
+		}
+	}
+	return append(out, s[start:])
 }
